@@ -24,6 +24,8 @@ def type_text(t: list, d: dict, gap: str = "") -> str:
     if k == "u":
         return ("truncated uint%d" if t[2] == "t" else ("saturated uint%d" if len(t) > 3 and t[3] == "x" else "uint%d")) % t[1]
     if k == "i":
+        if len(t) > 2 and t[2] == "t":
+            return "truncated int%d" % t[1]
         return ("saturated int%d" if len(t) > 2 and t[2] == "x" else "int%d") % t[1]
     if k == "f":
         return ("truncated float%d" if t[2] == "t" else ("saturated float%d" if len(t) > 3 and t[3] == "x" else "float%d")) % t[1]
